@@ -40,7 +40,7 @@ func panicText(r interface{}) string {
 	case zzsim.DeadlockAbort:
 		return outDeadlock
 	case injectedPanic:
-		return "\x00INJECTED-WRITER-PANIC"
+		return "\x00INJECTED-ABORT"
 	case string:
 		return "\x00PANIC " + x
 	case error:
@@ -154,17 +154,28 @@ func appendErr(b []byte, e *perrors.Error) []byte {
 // doParse parses a private copy of the input as one budgeted operation.
 func doParse(in *scn.Input, share bool) (p parsed) {
 	p.src = append([]byte(nil), in.Src...)
+	var errs []*perrors.Error
 	defer func() {
 		if r := recover(); r != nil {
+			zzsim.BeginOp(zzsim.Inf)
 			p.out = panicText(r)
 			p.root = nil
+			if _, injected := r.(injectedPanic); injected {
+				zzsim.AddProbe(probeCallbackAbort, 1)
+				p.errList = errs
+				p.errs = renderErrs(errs)
+			}
 		}
 	}()
 	zzsim.BeginOp(budgetFor(len(in.Src)))
-	var errs []*perrors.Error
 	cfg := conf.Config{Version: versionFor(in, share)}
 	if in.Callback {
-		cfg.ErrorHandlerFunc = func(e *perrors.Error) { errs = append(errs, e) }
+		cfg.ErrorHandlerFunc = func(e *perrors.Error) {
+			if in.AbortAt > 0 && len(errs)+1 == in.AbortAt {
+				panic(injectedPanic{}) // the caller aborts the parse from inside its callback
+			}
+			errs = append(errs, e)
+		}
 	}
 	root, err := parser.Parse(p.src, cfg)
 	zzsim.BeginOp(zzsim.Inf)
